@@ -407,7 +407,7 @@ class StmtMixin:
                 raise Unsupported('accumulation loop appends more than once per iteration')
             if appended:
                 return VTuple([VBool(True), appended[0]])
-            return VTuple([VBool(False)])
+            return VTuple([VBool(False), None])
         self.enumeration_law(gens, body_fn, accv, first_iter=im, extend=True)
         return True
 
@@ -485,15 +485,16 @@ class StmtMixin:
                     guards.append(ct)
                     self.pc.append(ct)
                     self.qguards = list(self.qguards) + [ct]
-            out = self.eval_pure(body_fn)
+            paths = self.eval_pure(body_fn, raw=True)
         finally:
             self.pc = self.pc[:n0]
             self.qguards = save_q
             self.qvars = save_qv
             newlocals = fr.locals
             fr.locals = saved_locals
-        cond = z3.And(guards + [out.items[0].term])
-        val = out.items[1] if len(out.items) > 1 else None
+        yes = [(z3.And(c, v.items[0].term), v.items[1]) for c, v in paths if v.items[1] is not None]
+        val = self.merge(yes) if yes else None
+        cond = z3.And(guards + [z3.Or([c for c, _ in yes])]) if yes else z3.BoolVal(False)
         if val is None:
             return None if extend else self.new_list(result_type or ty.TList(ty.ANY))
         # --- result list
